@@ -11,7 +11,19 @@ def lib_run(pid, tier, name, src, variants, bounds, expected_configs_per_variant
     b = dict(bounds)
     b["cells"] = sorted({cxx.cell_name(v.cell) for v in variants})
     rep.set("bounds", b)
-    results = libcheck.build_and_run(rep, name, src, variants, includes=includes)
+    from .. import libschema
+    try:
+        results = libcheck.build_and_run(rep, name, src, variants, includes=includes)
+    except libschema.Rejected as ex:
+        # the property's objects cannot even be generated: every set width / index, dimension pair, length type and primitive
+        # of the library schema is inside the property's quantifier, so a rejection is the property failing for that input
+        import re
+        m = re.search(r"Error[^\n]*", str(ex))
+        diag = re.sub(r"\x1b\[[0-9;]*m", "", m.group(0) if m else str(ex))[:300]
+        rep.violation("library-schema-rejected", {"msg": "sbeppc rejects the valid library schema the explorer is generated from: " + diag})
+        for a in assumptions:
+            rep.assume(a)
+        return rep.finish() if finish else rep
     totals = {}
     configs = 0
     for v, lines, dt in results:
